@@ -214,7 +214,7 @@ def walk(ctx, dom, cfp, fam, steps, ordN):
             continue
         # --- monitor 1: result vs model
         tri = "|".join(h.split("(")[0] for h in hist[-3:])
-        ctx.case("step", key="%s|%s" % (tri, before), sample=dict(curve=cv.key(), history=list(hist[-8:]), result=points.describe(res) if is_point and res is not None else res, expected=exp) if ctx.want("step") and len(hist) > 8 else None)
+        ctx.case("step", key="%s|%s" % (tri, before), sample=dict(curve=cv.key(), history=list(hist[-8:]), result=points.describe(res) if is_point and res is not None else res, expected=exp) if ctx.want("step") else None)
         if is_point:
             bad = judge_point(res, exp, p, deep=False)
         else:
